@@ -30,6 +30,8 @@ type sqPart struct {
 	Col  string `json:"col,omitempty"`
 	Expr string `json:"expr,omitempty"`
 	Desc bool   `json:"desc,omitempty"`
+	// Bare: the expression is written without surrounding parentheses (`lower(c)`, `id + 1`)
+	Bare bool `json:"bare,omitempty"`
 }
 
 type sqIdx struct {
@@ -46,6 +48,8 @@ type sqFK struct {
 	RefCols  []string `json:"ref_cols"`
 	OnDelete string   `json:"on_delete,omitempty"`
 	OnUpdate string   `json:"on_update,omitempty"`
+	// RefSpell: how the REFERENCES clause spells the parent (SQLite names are case-insensitive)
+	RefSpell string `json:"ref_spell,omitempty"`
 }
 
 type sqCheck struct {
@@ -125,7 +129,11 @@ func (t *sqTable) DDL() []string {
 		if fk.Name != "" {
 			d = "CONSTRAINT " + qi(fk.Name) + " "
 		}
-		d += "FOREIGN KEY (" + qis(fk.Cols) + ") REFERENCES " + qi(fk.RefTable) + " (" + qis(fk.RefCols) + ")"
+		ref := fk.RefTable
+		if fk.RefSpell != "" {
+			ref = fk.RefSpell
+		}
+		d += "FOREIGN KEY (" + qis(fk.Cols) + ") REFERENCES " + qi(ref) + " (" + qis(fk.RefCols) + ")"
 		if fk.OnUpdate != "" {
 			d += " ON UPDATE " + fk.OnUpdate
 		}
@@ -163,6 +171,9 @@ func (ix *sqIdx) DDL(table string) string {
 		s := qi(p.Col)
 		if p.Expr != "" {
 			s = "(" + p.Expr + ")"
+			if p.Bare {
+				s = p.Expr
+			}
 		}
 		if p.Desc {
 			s += " DESC"
@@ -377,7 +388,7 @@ func (g *sqGen) index(t *sqTable) sqIdx {
 		ix.Parts = append(ix.Parts, sqPart{Col: c, Desc: g.r.Chance(1, 3)})
 	}
 	if !g.cfg.NoExprIndex && g.r.Chance(1, 6) {
-		ix.Parts = append(ix.Parts, sqPart{Expr: "id + 1", Desc: g.r.Chance(1, 2)})
+		ix.Parts = append(ix.Parts, sqPart{Expr: hx.Pick(g.r, []string{"id + 1", "abs(id)", "id * 2"}), Desc: g.r.Chance(1, 2), Bare: g.r.Chance(1, 2)})
 	}
 	if g.r.Chance(1, 4) {
 		ws := []string{"id > 0", "id > 1 AND id < 1000", "id IS NOT NULL", "id > 0 AND 'nowhere' <> 'somewhere else'"}
@@ -977,7 +988,7 @@ func catalog(db *sql.DB) ([]string, error) {
 			if strings.Contains(strings.Join(parts, ","), "<expr>") {
 				var sqlText string
 				db.QueryRow("SELECT coalesce(sql,'') FROM sqlite_master WHERE type='index' AND name = ?", x.name).Scan(&sqlText)
-				expr = " sql=" + strings.Join(strings.Fields(strings.NewReplacer("`", "", "\"", "").Replace(sqlText[strings.Index(sqlText, "("):])), "")
+				expr = " sql=" + normIdxParts(strings.Join(strings.Fields(strings.NewReplacer("`", "", "\"", "").Replace(sqlText[strings.Index(sqlText, "("):])), ""))
 			}
 			out = append(out, fmt.Sprintf("index %s.%s unique=%d parts=%s where=%q%s", t.name, name, x.unique, strings.Join(parts, ","), where, expr))
 		}
@@ -1007,6 +1018,43 @@ func catalog(db *sql.DB) ([]string, error) {
 	}
 	sort.Strings(out)
 	return out, nil
+}
+
+// normIdxParts normalises the (blank-free) part list of a CREATE INDEX statement, `(a,(id*2)DESC)WHERE..`:
+// parentheses enclosing a whole part are redundant (`(id*2)` and `id*2` are the same key expression).
+func normIdxParts(s string) string {
+	if !strings.HasPrefix(s, "(") {
+		return s
+	}
+	depth, end := 0, -1
+	for i, c := range s {
+		if c == '(' {
+			depth++
+		} else if c == ')' {
+			depth--
+			if depth == 0 {
+				end = i
+				break
+			}
+		}
+	}
+	if end < 0 {
+		return s
+	}
+	parts := splitTop(s[1:end])
+	for i, p := range parts {
+		suffix := ""
+		for _, sf := range []string{"DESC", "ASC"} {
+			if strings.HasSuffix(p, ")"+sf) {
+				p, suffix = strings.TrimSuffix(p, sf), sf
+			}
+		}
+		for strings.HasPrefix(p, "(") && strings.HasSuffix(p, ")") && parenBalanced(p[1:len(p)-1]) {
+			p = p[1 : len(p)-1]
+		}
+		parts[i] = p + suffix
+	}
+	return "(" + strings.Join(parts, ",") + ")" + s[end+1:]
 }
 
 func parenBalanced(s string) bool {
